@@ -211,10 +211,14 @@ def gen_aux(rng, regime, n, kind):
     else:
         for _ in range(50):
             an = [rng.randint(1, 8), rng.randint(1, 8)]
-            if regime == "exact" or all(tie_free(a, b) for a, b in zip(an, n)):
+            if all(tie_free(a, b) for a, b in zip(an, n)):
                 break
         else:
             an = list(n)
+        if regime == "exact" and rng.random() < 0.3:
+            # nearest-neighbour ties with exactly representable (dyadic) source cells: 2x / 4x refinement
+            k = rng.randrange(2)
+            an[k] = n[k] * rng.choice([2, 4])
     bad = None
     if rng.random() < 0.06:
         bad = rng.choice(["nvdim2", "ndim3", "ndim1"])
